@@ -12,7 +12,8 @@
                  -> escaping does not change the denoted component, leaves nothing to escape, and the
                     library's own reading of s is the reference's.
    k = "pairs":  names, and the matrices the library/Python computed on all pairs:
-                 less (lists of bytes(component)), vless (concatenated encodings), eq, prefix (Name.is_prefix)
+                 less (lists of bytes(component)), vless (concatenated encodings), eq,
+                 prefix (Name.is_prefix: one matrix per combination of argument forms list/wire/URI x list/wire/URI)
    k = "cpairs": comps, less (bytes(c_i) < bytes(c_j))
    A record's verdict is the set of clause names that fail; {} = accepted. *)
 EXTENDS NameUri, Json, IOUtils, TLCExt
@@ -50,7 +51,9 @@ PairClauses(r) ==
   IN (IF \E i, j \in I : r.less[i][j] # NameLess(ns[i], ns[j]) THEN {"less"} ELSE {})
      \cup (IF \E i, j \in I : r.vless[i][j] # NameLess(ns[i], ns[j]) THEN {"vless"} ELSE {})
      \cup (IF \E i, j \in I : r.eq[i][j] # (ns[i] = ns[j]) THEN {"eq"} ELSE {})
-     \cup (IF \E i, j \in I : r.prefix[i][j] # PrefixByComponents(ns[i], ns[j]) THEN {"prefix"} ELSE {})
+     \* r.prefix[f] = the matrix for the f-th combination of argument forms (list / wire / URI on either side)
+     \cup (IF \E f \in 1..Len(r.prefix) : \E i, j \in I : r.prefix[f][i][j] # PrefixByComponents(ns[i], ns[j])
+           THEN {"prefix"} ELSE {})
 
 CPairClauses(r) ==
   LET cs == [i \in 1..Len(r.comps) |-> CompOf(r.comps[i])]
